@@ -285,13 +285,271 @@ def level_part(check):
             return
 
 
+# ----------------------------------------------------------------------------- nearly equal OS names
+
+NEAR_BASES = ["macos", "ios", "linux", "android", "windows", "wasm32", "a"]
+NEAR_KINDS = ("case", "prefix-suffix", "separator", "blanks", "digit", "empty", "unicode")
+
+
+def near_variants(base, kind):
+    """names that are *nearly* `base` in one respect - every one of them is a different OS name for the rule (names are opaque
+    strings, compared as written); a comparison that lower-cases, trims, looks at a prefix / suffix, unifies `-` and `_`, strips
+    digits, folds Unicode case or treats the empty name as "any" confuses some of them with `base`"""
+    b = base
+    mid = max(1, len(b) // 2)
+    if kind == "case":
+        out = [b.upper(), b.capitalize(), b[:mid] + b[mid:].upper(), b[:mid].upper() + b[mid:], b[:-1] + b[-1:].upper(),
+               "".join(c.upper() if i % 2 else c for i, c in enumerate(b))]
+    elif kind == "prefix-suffix":
+        out = [b[:-1], b[:mid], b[1:], b + "x", "x" + b, b + b, b + "os", b[:1]]
+    elif kind == "separator":
+        out = [b[:mid] + "-" + b[mid:], b[:mid] + "_" + b[mid:], b[:mid] + " " + b[mid:], b[:mid] + "." + b[mid:], b + "-", b + "_",
+               "_" + b, b[:mid] + "--" + b[mid:], b[:mid] + "__" + b[mid:]]
+    elif kind == "blanks":
+        out = [" " + b, b + " ", " " + b + " ", b + "\t", "\t" + b, b + "  ", b + "\n", b + "\u00a0", "\u3000" + b, b + "\u200b"]
+    elif kind == "digit":
+        out = [b + "1", b + "0", b + "2", b + "10", b + "01", b.rstrip("0123456789") if b[-1:].isdigit() else b + "3", b + "\u0661"]
+    elif kind == "empty":
+        out = ["", " ", "*", "any", "_"]
+    else:
+        # non-ASCII letters whose upper / lower case or compatibility form is an ASCII letter of the base (long s, Kelvin sign,
+        # dotless i, dotted capital I, full-width first letter), look-alikes (Cyrillic a, Greek omicron), a combining mark behind
+        # the name, and the composed against the decomposed spelling of an accented last letter
+        swap = {"s": "\u017f", "k": "\u212a", "i": "\u0131", "a": "\u0430", "o": "\u03bf"}
+        out = [b[:i] + swap[c] + b[i + 1:] for i, c in enumerate(b) if c in swap][:4]
+        out += [b.upper().replace("I", "\u0130") if "i" in b else b[:-1] + "\u00df", b + "\u0301", chr(0xff00 + ord(b[0]) - 0x20) + b[1:],
+               b[:-1] + "\u00e9", b[:-1] + "e\u0301", b[:-1] + "E\u0301"]
+    res = []
+    for n in out:
+        if n != b and n not in res:
+            res.append(n)
+    return res
+
+
+def near_pool(rng, cli=False):
+    """(kind, names): a base name, two to four names nearly equal to it in one respect (`kind`), sometimes a name nearly equal in
+    another respect and sometimes an unrelated OS.  `cli`: only names that can be handed over as a command-line value (no line
+    break; a leading `-` never occurs)"""
+    base = rng.choice(NEAR_BASES)
+    kind = rng.choice(NEAR_KINDS)
+    vs = near_variants(base, kind)
+    if cli:
+        vs = [v for v in vs if "\n" not in v]
+    pool = [base] + rng.sample(vs, min(len(vs), rng.randint(2, 4)))
+    if rng.random() < 0.4:
+        k2 = rng.choice(NEAR_KINDS)
+        pool.append(rng.choice([v for v in near_variants(base, k2) if not cli or "\n" not in v]))
+    if rng.random() < 0.3:
+        pool.append(rng.choice([b for b in NEAR_BASES if b != base]))
+    return kind, list(dict.fromkeys(pool))
+
+
+def near_expr(rng, pool, depth):
+    """a cfg expression over not / any / all whose target_os leaves name members of the pool"""
+    if depth == 0 or rng.random() < 0.3:
+        r = rng.random()
+        if r < 0.1:
+            return m_nv("feature", lit_s(rng.choice(pool)))          # the same string, but not a target_os
+        if r < 0.15:
+            return m_path("unix")
+        return m_nv("target_os", lit_s(rng.choice(pool)))
+    r = rng.random()
+    if r < 0.35:
+        return m_list("not", [near_expr(rng, pool, depth - 1)])
+    return m_list(rng.choice(["any", "all"]), [near_expr(rng, pool, depth - 1) for _ in range(rng.randint(1, 3))])
+
+
+def confused(cfgs, targets):
+    """which (source name, listed name) pair explains an answer that differs from the rule - for the report only"""
+    nm = []
+    for a in cfgs:
+        for item in a[3]:
+            nm += names(item) or []
+    pairs = [(o, t) for (_, o) in nm for t in targets if o != t]
+    near = [(o, t) for o, t in pairs if o.casefold().strip() == t.casefold().strip() or (o and t and (o.startswith(t) or t.startswith(o)))]
+    p = (near or pairs or [(None, None)])[0]
+    return "e.g. %r in the source and %r in the list are different names" % p if p[0] is not None else "no OS name of the source is in the list"
+
+
+class NearGen(Gen):
+    """the random-program generator of the level part, with the OS names of its cfg attributes drawn from a pool of nearly equal
+    names"""
+
+    def __init__(self, rng, pool, **opts):
+        Gen.__init__(self, rng, **opts)
+        self.pool = pool
+
+    def cfg_attr_meta(self):
+        self.hit("cfg")
+        return m_list("cfg", [near_expr(self.rng, self.pool, self.rng.choice([0, 1, 1, 2, 3]))])
+
+
+def near_hook_part(check):
+    """nearly equal OS names on the hook level (accept_target_os): every ordered pair of a base name and its near names under seven
+    expression shapes, plus random expressions over not / any / all with 0-3 listed names; judged by the rule with byte equality,
+    and compared with the model"""
+    rng = check.rng
+    cases = []
+    shapes = [lambda x, z: x, lambda x, z: m_list("not", [x]), lambda x, z: m_list("any", [x, z]),
+              lambda x, z: m_list("all", [m_nv("feature", lit_s("f")), m_list("not", [x])]),
+              lambda x, z: m_list("not", [m_list("any", [z, x])]), lambda x, z: m_list("all", [m_list("any", [x]), m_list("not", [z])]),
+              lambda x, z: m_list("any", [m_list("not", [m_list("not", [x])])])]
+    bases = NEAR_BASES if check.thorough else rng.sample(NEAR_BASES, 2)
+    for base in bases:
+        for kind in NEAR_KINDS:
+            fam = [base] + near_variants(base, kind)
+            other = m_nv("target_os", lit_s("other"))
+            for x in fam:
+                for y in fam:
+                    if x != base and y != base and not check.thorough and rng.random() < 0.5:
+                        continue
+                    for sh in shapes:
+                        cases.append(([m_list("cfg", [sh(m_nv("target_os", lit_s(x)), other)])], [y], "near-pair:" + kind))
+    for _ in range(100000 if check.thorough else 4000):
+        kind, pool = near_pool(rng)
+        attrs = [m_list("cfg", [near_expr(rng, pool, rng.randint(0, 3)) for _ in range(rng.choice([1, 1, 1, 2]))])
+                 for _ in range(rng.choice([1, 1, 2]))]
+        cases.append((attrs, [rng.choice(pool) for _ in range(rng.randint(0, 3))], "near-random:" + kind))
+    mreq = [[S("accept-os"), [sx_meta(a) for a in attrs], t] for attrs, t, _ in cases]
+    rreq = [{"op": "accept_os", "src": "".join(render_attr(a) + " " for a in attrs) + "struct S;", "targets": t} for attrs, t, _ in cases]
+    mans, rans = model(mreq, with_unicode=False), runner(rreq)
+    broken = None
+    for (attrs, t, kind), ma, ra, rq in zip(cases, mans, rans, rreq):
+        exp = rule(attrs, t)
+        nm = [n for a in attrs for item in a[3] for n in (names(item) or [])]
+        check.saw("near|" + rq["src"] + "|" + "\x1f".join(t), nontrivial=bool(nm) and bool(t))
+        check.count(kind)
+        if t and any(o not in t and any(o.lower() == x.lower() for x in t) for _, o in nm):
+            check.count("near-case-only-difference-between-source-and-list")
+        if ra != {"ok": exp}:
+            check.violation("accept_target_os answers %s for `%s` with the target list %s; the documented rule with OS names compared as "
+                            "written gives %s (%s)" % (ra.get("ok", ra), rq["src"], t, exp, confused(attrs, t)),
+                            case=rq, impl=ra, model=ma, failing_input=True)
+            return
+        if ma != ra and broken is None:
+            broken = (rq, ma, ra)
+    if broken:
+        check.violation("accept_target_os differs from the model on nearly equal OS names", case=broken[0], impl=broken[2], model=broken[1],
+                        failing_input=False, broken="correspondence accept_target_os (theorem TsV.C13.C13)")
+
+
+def near_level_part(check):
+    """nearly equal OS names at every attachment level (file, type, variant, field, struct-variant field) of random programs,
+    through parser::parse; judged by the python reading of the rule (c03.expected, names compared as written), and compared with
+    the model"""
+    import c03
+    rng = check.rng
+    lcases = []
+    for i in range(5000 if check.thorough else 350):
+        kind, pool = near_pool(rng)
+        g = NearGen(rng, pool, p_cfg=0.5, p_skip=0.03, p_mod=0.15, p_noise=0.15, p_serialized_as=0.0)
+        f = g.file()
+        tos = [rng.choice(pool) for _ in range(rng.choice([0, 1, 1, 2, 2, 3]))]
+        m, r, text = l1.requests(f, g, target_os=tos)
+        lcases.append((f, tos, m, r, text, g.features.get("cfg", 0), kind))
+    mans, rans, diffs = l1.compare([(c[2], c[3]) for c in lcases])
+    for (f, tos, m, r, text, ncfg, kind), ma, ra in zip(lcases, mans, rans):
+        check.saw("near-L1|" + text + "|" + "\x1f".join(tos), nontrivial=ncfg > 0 and bool(tos))
+        check.count("near-level:" + kind)
+        if "typeshare" not in text:
+            continue
+        prob = c03.oracle(c03.expected(f, tos), ra)
+        if prob:
+            check.violation("--target-os %s (OS names nearly equal to the ones in the source): the generated items / members differ from the "
+                            "documented rule with names compared as written: %s" % (tos, prob),
+                            case={"source": text, "target_os": tos, "request": r}, impl=ra, model=ma, failing_input=True)
+            return
+    if diffs:
+        i = diffs[0]
+        check.violation("parser::parse differs from the model with target_os=%s (nearly equal OS names): %s"
+                        % (lcases[i][1], l1.first_diff(mans[i], rans[i])),
+                        case={"source": lcases[i][4], "target_os": lcases[i][1], "request": lcases[i][3]}, impl=rans[i], model=mans[i],
+                        failing_input=False, broken="correspondence L1 (theorems TsV.C13.file_level/item_level/member_level)")
+
+
+def near_cli_part(check):
+    """nearly equal OS names in the text the binary writes with --target-os: programs of 1-3 files with a marker name at every
+    level, each guarded by its own random expression over a pool of near names; a marker is in the output exactly when the rule
+    (names compared as written) accepts the file and every enclosing level.  (The unguarded tuple variant keeps the enum an
+    algebraic one whatever is filtered out: `tag` / `content` are demanded by the struct variant and refused on an enum of unit
+    variants.)"""
+    rng = check.rng
+    for k in range(300 if check.thorough else 25):
+        kind, pool = near_pool(rng, cli=True)
+        tos = [rng.choice(pool) for _ in range(rng.choice([1, 1, 2, 3]))]
+        # (a file without any cfg: when nothing at all is left to generate the binary stops with "Could not get parsed data" -
+        # not a matter of this property)
+        files, want, guards = {"p/src/anchor.rs": "#[typeshare]\npub struct AnchorQ {\n    pub anchor_q: u8,\n}\n"}, {"AnchorQ": True}, {"AnchorQ": "(no cfg)"}
+        for fi in range(rng.randint(1, 3)):
+            fattrs = [m_list("cfg", [near_expr(rng, pool, rng.randint(0, 2))])] if rng.random() < 0.35 else []
+            lines = [render_attr(a, inner=True) for a in fattrs]
+            for ti in range(rng.randint(1, 3)):
+                tag = "%d%d" % (fi, ti)
+                e = {w: ([m_list("cfg", [near_expr(rng, pool, rng.randint(0, 3))]) for _ in range(rng.choice([1, 1, 2]))]
+                         if rng.random() < 0.7 else []) for w in ("type", "field", "enum", "variant", "sv", "member")}
+                at = lambda w, ind="": "".join(ind + render_attr(a) + "\n" for a in e[w])
+                lines += ["#[typeshare]", at("type") + "pub struct TypeQ%s {" % tag, "    pub always_q%s: u8," % tag,
+                          at("field", "    ") + "    pub field_q%s: u8," % tag, "}", "",
+                          "#[typeshare]", "#[serde(tag = \"t\", content = \"c\")]", at("enum") + "pub enum EnumQ%s {" % tag,
+                          "    PlainQ%s," % tag, "    TupleQ%s(u8)," % tag, at("variant", "    ") + "    VariantQ%s," % tag,
+                          at("sv", "    ") + "    SvQ%s {" % tag, "        keep_q%s: u8," % tag,
+                          at("member", "        ") + "        member_q%s: u8," % tag, "    },", "}", ""]
+                chains = {"TypeQ": ["type"], "always_q": ["type"], "field_q": ["type", "field"], "EnumQ": ["enum"], "PlainQ": ["enum"],
+                          "VariantQ": ["enum", "variant"], "SvQ": ["enum", "sv"], "keep_q": ["enum", "sv"],
+                          "member_q": ["enum", "sv", "member"]}
+                for w, chain in chains.items():
+                    gs = [fattrs] + [e[c] for c in chain]
+                    guards[w + tag] = " / ".join(" ".join(render_attr(a) for a in g) for g in gs if g) or "(no cfg)"
+                    want[w + tag] = all(rule(g, tos) for g in gs)
+            files["p/src/f%d.rs" % fi] = "\n".join(lines)
+        with Scratch() as sc:
+            for rel, text in files.items():
+                sc.write(rel, text)
+            r = run_cli(["--lang", "typescript", "-o", sc.path("o.ts"), sc.path("p"), "--target-os"] + tos, cwd=sc.dir)
+            out = open(sc.path("o.ts")).read() if os.path.exists(sc.path("o.ts")) else ""
+        words = set(re.findall(r"\w+", out))
+        wrong = [w for w in sorted(want) if (w in words) != want[w]]
+        check.saw(("near-cli", k, tuple(tos)), nontrivial=True)
+        check.count("near-cli:" + kind)
+        check.count("near-cli-marked-positions", len(want))
+        if r["rc"] != 0 or wrong:
+            w = wrong[0] if wrong else None
+            check.violation("typeshare --target-os %s: %s" % (" ".join(repr(t) for t in tos),
+                            ("`%s` (guarded by %s) is %s, the documented rule with OS names compared as written says it is %s; "
+                             "in all %d marked names differ: %s" % (w, guards[w], "generated" if w in words else "left out",
+                                                                     "generated" if want[w] else "left out", len(wrong), wrong))
+                            if wrong else "the run failed (exit status %s)" % r["rc"]),
+                            case={"files": files, "target_os": tos, "options": ["--lang", "typescript", "-o", "o.ts", "p", "--target-os"] + tos},
+                            impl={"rc": r["rc"], "stderr": r["err"][-600:], "output": out}, failing_input=True)
+            return
+
+
+def near_names_part(check):
+    """OS names that are nearly equal: the names in the source's cfg attributes and the names of the target list differ only in
+    letter case (`MacOS` / `macos`), by a prefix or suffix (`mac` / `macosx`), by `-` against `_`, by surrounding blanks, by a
+    trailing digit, are empty, or differ by a non-ASCII letter whose case mapping is an ASCII letter - inside not / any / all, at
+    every level (file, type, variant, field, struct-variant field).  Demanded, on the answer of accept_target_os, on what
+    parser::parse lists and on the text the binary writes with --target-os: the documented rule with OS names compared *as
+    written* (byte equality) - `target_os = "MacOS"` does not name `macos`."""
+    for part in (near_hook_part, near_level_part, near_cli_part):
+        if not check.has_failing():
+            part(check)
+
+
 _run_l0 = run
 
 
 def run(check):
     _run_l0(check)
     if not check.has_failing():
+        near_names_part(check)
+    if not check.has_failing():
         level_part(check)
+    check.rule += ("; nearly equal OS names (a base name and names that differ from it in letter case, by a prefix / suffix, by - _ . or "
+                   "a blank inside, by surrounding blanks, by a trailing digit, the empty name, non-ASCII case / look-alike letters) in "
+                   "the source and in the target list: all ordered pairs x 7 expression shapes and random expressions on "
+                   "accept_target_os, random programs through parser::parse, marker programs through the binary's --target-os, each "
+                   "judged by the rule with names compared as written")
     check.rule += ("; attachment levels: random programs with cfg attributes on the file, on types, on variants, on fields and on "
                    "struct-variant fields (45% of positions) x 6 target lists through parser::parse, checked against an independent "
                    "python reading of the documented rule, plus the --target-os option of the binary on a fixed program x 5 lists")
